@@ -95,9 +95,12 @@ CLAIMED = {
              "urlencoded body is exactly that list in order (C03_query_roundtrip: nothing dropped, merged, re-attributed); a "
              "header is stored byte-exact and found under every spelling of its name (C03_header_store); JSON bodies: within the "
              "depth limit no error is raised and every scalar of every document is exposed under json.<path> with its text "
-             "(C03_json_every_scalar_exposed, by induction over the document). Tied to /repo by "
-             "`decode` through ProcessURI, the urlencoded and JSON body processors, the Cookie header and AddRequestHeader.",
-        note=_TB + "Partial: multipart/XML parsing (mime/multipart, encoding/xml) and gjson's reading of JSON text are outside the model; "
+             "(C03_json_every_scalar_exposed, by induction over the document); XML bodies: every attribute value and every non-blank "
+             "piece of character data / CDATA of every element at any depth is exposed in XML://@* and XML:/*, one value per attribute, "
+             "none invented (C03_xml_*, Properties/C03b.lean). Tied to /repo by `decode` through ProcessURI, the urlencoded, "
+             "multipart, JSON and XML body processors, the Cookie header and AddRequestHeader.",
+        note=_TB + "Partial: the tokenisers themselves (mime/multipart, encoding/xml, gjson) are the assumed contract on well-formed input: the "
+             "models read the document tree, the harness's independent encoder writes the text; malformed multipart/XML is judged by the monitor only; "
              "url.ParseRequestURI is a parameter.", ref="6/C03", engine="decode"),
     "C18": dict(
         text="Lean 4 theorems over a model of the middleware's response interceptor, for every configuration, every decision "
